@@ -32,6 +32,8 @@ REQUIRED_COUNTERS = {"twin_pairs": {"quick": 3000, "thorough": 50000},
                      "refcount_checks": {"quick": 5000, "thorough": 100000},
                      "valuestack_iters_checked": {"quick": 500, "thorough": 5000},
                      "weakref_death_checks": {"quick": 1000, "thorough": 20000},
+                     "refcount_checks_without_collector": {"quick": 2000, "thorough": 30000},
+                     "first_extraction_of_the_process_checked": {"quick": 8, "thorough": 8},
                      "tree_objects_checked_for_retention": {"quick": 5000, "thorough": 100000}}
 SHARD_TIMEOUT = {"quick": 400, "thorough": 5400}
 INTERPS = ["3.12", "3.11", "3.10", "3.9"]
@@ -119,6 +121,48 @@ def worker(spec):
     state = {}
     me = sys._getframe(0)
 
+    # the very first extraction of this process (stackscope finishes importing its frame-layout module and
+    # runs its self-tests during it): afterwards nothing may hold on to the target, collector or not
+    def first_extraction():
+        class FirstM(object):
+            def __enter__(self):
+                return self
+
+            def __exit__(self, *a):
+                pass
+
+        def first_target(m):
+            with m:
+                yield 1
+
+        m = FirstM()
+        g = first_target(m)
+        next(g)
+        gc.collect()
+        # (the manager is not counted: reading frame.f_locals makes CPython keep a snapshot dict of the
+        # locals on the frame - the interpreter's doing, see the warm-up below)
+        base = (sys.getrefcount(g), sys.getrefcount(g.gi_frame))
+        with warnings.catch_warnings():
+            warnings.simplefilter("ignore")
+            st = stackscope.extract(g)
+        ok_ctx = len(st.frames) == 1 and [c.obj for c in st.frames[0].contexts] == [m]
+        del st
+        now = (sys.getrefcount(g), sys.getrefcount(g.gi_frame))
+        res.evaluations += 1
+        res.count("first_extraction_of_the_process_checked")
+        if not ok_ctx:
+            res.violation(kind="first extraction of the process is wrong", mode=modename, interp=interp)
+        elif now != base:
+            gc.collect()
+            again = (sys.getrefcount(g), sys.getrefcount(g.gi_frame))
+            res.violation(kind="retention/repeatability", label="first extraction of the process", mode=modename,
+                          problems=["refcounts (target, frame) %r -> %r after the result was dropped (%s)" % (
+                              base, now, "a collectable cycle held them" if again == base else "still held after a full collection")],
+                          interp=interp)
+        g.close()
+
+    first_extraction()
+
     class TrackedIter(object):
         """iterator that lives only on the interpreter's value stack while a for loop runs"""
 
@@ -148,7 +192,7 @@ def worker(spec):
         return ([sys.getrefcount(m) for m in mgrs], [sys.getrefcount(i) for i in registry],
                 [sys.getrefcount(f) for f in frames])
 
-    def extract_and_monitor(run, do_extract, frames, info):
+    def extract_and_monitor(run, do_extract, frames, info, info_mode="running"):
         """perform 1-3 extractions; check equality and that refcounts return to baseline"""
         orng = state["orng"]
         n = orng.choice((1, 1, 2, 3))
@@ -162,6 +206,7 @@ def worker(spec):
             warm = do_extract()
             del warm
             gc.collect(1)  # in running mode the result holds the monitor's own frames: cycles
+            gc.collect()
             before = refsnap(run, registry, frames)
             sts = [do_extract() for _ in range(n)]
         res.count("extractions_in_observed_runs", n)
@@ -188,6 +233,17 @@ def worker(spec):
             res.count("extractions_with_error")
         other = None
         del sts, other, here
+        if info_mode == "suspended":
+            # the results of an extraction from outside hold none of the monitor's frames, so nothing here is
+            # cyclic on the monitor's account: the counts must be back at once, without help from the collector
+            # (a cycle through stackscope's own frames or tracebacks would pin the target until the next pass)
+            after = refsnap(run, registry, frames)
+            res.count("refcount_checks_without_collector")
+            if before != after:
+                gc.collect()
+                again = refsnap(run, registry, frames)
+                problems.append("refcounts did not return to baseline once the results were dropped: %r -> %r (%s)" % (
+                    before, after, "a collectable cycle held them" if again == before else "still held after a full collection"))
         gc.collect(1)
         after = refsnap(run, registry, frames)
         res.count("refcount_checks")
@@ -207,7 +263,8 @@ def worker(spec):
         if state["orng"].random() < 0.45:
             return
         fr = getattr(x, "cr_frame", None) or getattr(x, "gi_frame", None) or getattr(x, "ag_frame", None)
-        extract_and_monitor(run, lambda: stackscope.extract(x), [fr] if fr is not None else [], (info["step"], value))
+        extract_and_monitor(run, lambda: stackscope.extract(x), [fr] if fr is not None else [], (info["step"], value),
+                            info_mode="suspended")
 
     def probe(run, tag):
         if state["orng"].random() < 0.45:
